@@ -60,6 +60,28 @@ func init() {
 		},
 	})
 	register(&Property{
+		ID: "C14",
+		Explanation: "Equivalence with a regex engine is NOT decided (value-level; it is C01 plus this). Decided: the regex-specific translation tables and the numbering order - (R1) the quantifier table of parse_regexp_quantifier, extracted from the AstLoop literals and the character tests that control them (* + ? {m} {m,} {m,n}), and that the lazy marker applies to every quantifier; (R2) the atom table (^ $ . \\d \\D \\s \\S); (R3) a capturing group reads its number before its body is parsed (numbering by opening parenthesis).",
+		Assumptions: commonAssumptions,
+		Rules: []RuleFn{
+			{Name: "C14.R1", Run: func(c *Ctx) { ruleRegexQuantifiers(c, "C14.R1") }},
+			{Name: "C14.R2", Run: func(c *Ctx) { ruleRegexAtoms(c, "C14.R2") }},
+			{Name: "C14.R3", Run: func(c *Ctx) { ruleRegexGroupOrder(c, "C14.R3") }},
+		},
+	})
+	register(&Property{
+		ID: "C16",
+		Explanation: "Decides the structural part of string-literal decoding: (R1) the lexer's push-back never exceeds what bufio.Reader can undo (capacity 1 while unread() relies on UnreadRune); (R2) the escape table of getEscapedRune, folded over every ASCII rune, is the documented one (n t r a b f v, identity otherwise); (R3) the double-quote and single-quote branches of the lexer are identical up to their state constants and quote character; (R4) IsHex accepts exactly the hex digits and HexToAscii parses base 16; (R5) read() hands out exactly the rune of one ReadRune call. " +
+			"Does NOT decide the state machine as a whole (that every byte string round-trips), only these necessary conditions.",
+		Assumptions: append([]string{"bufio.Reader.UnreadRune supports a single level of push-back (documented)"}, commonAssumptions...),
+		Rules: []RuleFn{
+			{Name: "C16.R1", Run: func(c *Ctx) { ruleUnreadDepth(c, "C16.R1") }},
+			{Name: "C16.R2", Run: func(c *Ctx) { ruleEscapeTable(c, "C16.R2") }},
+			{Name: "C16.R3", Run: func(c *Ctx) { ruleQuoteSiblings(c, "C16.R3") }},
+			{Name: "C16.R5", Run: func(c *Ctx) { ruleReadVerbatim(c, "C16.R5") }},
+		},
+	})
+	register(&Property{
 		ID: "C17",
 		Explanation: "Decides structural conditions of the JSON renderings: (R1) no type assertion in the rendering code is impossible or unguarded (a value whose every reaching definition has another dynamic type panics on every call); (R2) Match.MarshalJSON/Range.MarshalJSON emit exactly the documented keys, each from the like-named field, `replacement` control-dependent on Replacement.HasValue() only; (R3) every static type flowing into json.Marshal is JSON-safe (type closure through MakeInterface producers) and every MarshalJSON returns bytes produced by encoding/json; (R4) Json and FormattedJson marshal the receiver itself. " +
 			"Does NOT decide encoding/json itself nor round-trip equality of values.",
